@@ -18,6 +18,7 @@ import (
 	"io"
 	"os"
 	"os/exec"
+	"runtime/pprof"
 	"strings"
 	"sync"
 	"syscall"
@@ -99,12 +100,19 @@ func ChildMain() {
 				binary.LittleEndian.PutUint64(page[0:], 1)
 			}
 		}
+		if pf := os.Getenv("TRIGX_PROF"); pf != "" && spec.Shard == 0 {
+			if f, err := os.Create(fmt.Sprintf("%s.%d", pf, spec.From)); err == nil {
+				_ = pprof.StartCPUProfile(f)
+				defer pprof.StopCPUProfile()
+			}
+		}
 		plan := NewPlan(spec.Thorough)
 		e := newEngine(plan, &spec, progress)
 		e.Run(func(f *Flush) {
 			_ = enc.Encode(f)
 			w.Flush()
 		})
+		pprof.StopCPUProfile()
 	default:
 		fmt.Fprintln(os.Stderr, "trigx child: unknown mode", spec.Mode)
 		os.Exit(4)
